@@ -63,7 +63,7 @@ var props = map[string]propCfg{
 		Reach:     []string{"read-root", "read-nonroot", "reached-whole", "reached-free", "reached-single:schema", "reached-single:parameter", "reached-single:header", "reached-single:requestBody", "reached-single:response", "reached-single:example", "reached-single:callback", "reached-single:link", "reached-single:pathItem", "reached-single:securityScheme", "load-ok", "load-err", "unreadable-target", "enoent", "eio", "torn", "http5xx", "http_reset", "changed"}},
 	"C02": {Sim: "loader", Quick: tierCfg{Runs: 40000, Workers: 16, Budget: 60 * time.Second, Seeds: 1},
 		Thorough:  tierCfg{Runs: 700000, Workers: 16, Budget: 9 * time.Minute, Seeds: 5},
-		Rule:      "same runs as C11. Clause (i): a location whose read failed (missing, enoent, eio, http 5xx, connection reset) and never succeeded in that load => the load returns an error. Clause (ii): every load terminates within a read budget (64+16*(1+references)*(1+files) reads) and an instrumentation-step budget, including on cyclic multi-file layouts and under faults. The main clause (resolved object == designated object) is a pure function of the file tree and is NOT decided.",
+		Rule:      "same runs as C11. Clause (i): a location whose read failed (missing, enoent, eio, http 5xx, connection reset) and never succeeded in that load => the load returns an error. Clause (ii): a fragment reference planted in the root at a resolved position whose existing target lacks the fragment => the load returns an error. Clause (iii): every load terminates within a read budget (64+16*(1+references)*(1+files) reads) and an instrumentation-step budget, including on cyclic multi-file layouts and under faults. The main clause (resolved object == designated object) is a pure function of the file tree and is NOT decided.",
 		DesignRef: "§3 SIM-LOADER, §4 C02",
 		Reach:     []string{"unreadable-target", "load-ok", "load-err", "enoent", "eio", "torn", "http5xx", "http_reset", "changed"}},
 	"C13": {Sim: "stream", Quick: tierCfg{Runs: 48000, Workers: 16, Budget: 60 * time.Second, Seeds: 1},
